@@ -34,6 +34,11 @@ pub struct Plan {
     /// server side
     #[serde(default)]
     pub lazy: Option<(crate::simjar::LazyPlan, crate::simjar::LazyPlan)>,
+    /// non-zero: before the merged jar is written to memory, it is written once where the write FAILS (odd: the public
+    /// `put_to_file` onto /dev/full; even: hook H3 into a sink with room for this many bytes): what a failed write
+    /// leaves behind on the thread must not show in the next one (missed seeded change C13-10)
+    #[serde(default)]
+    pub failed_write_first: u32,
 }
 
 /// One logical entry name, with what each side holds under it.
@@ -416,14 +421,36 @@ impl JarHandles {
 }
 
 /// merge + observation of the result (+ optionally the jar written to memory). Each stage under `no_panic`.
-fn run_merge(c_bytes: &[u8], c_io: &IoPlan, s_bytes: &[u8], s_io: &IoPlan, with_mem: bool) -> (Outcome, JarHandles) {
+fn run_merge(c_bytes: &[u8], c_io: &IoPlan, s_bytes: &[u8], s_io: &IoPlan, with_mem: bool, failed_write_first: u32) -> (Outcome, JarHandles) {
     let cj = SimJar::new(c_bytes.to_vec(), c_io);
     let sj = SimJar::new(s_bytes.to_vec(), s_io);
     let h = JarHandles { c: cj.agg.clone(), s: sj.agg.clone() };
-    (merge_and_observe(cj, sj, with_mem), h)
+    (merge_and_observe(cj, sj, with_mem, failed_write_first), h)
 }
 
-fn merge_and_observe(cj: impl dukebox::storage::Jar, sj: impl dukebox::storage::Jar, with_mem: bool) -> Outcome {
+/// a Write + Seek sink with room for `room` bytes (ENOSPC beyond)
+struct RoomFor {
+    buf: std::io::Cursor<Vec<u8>>,
+    room: u64,
+}
+impl std::io::Write for RoomFor {
+    fn write(&mut self, b: &[u8]) -> std::io::Result<usize> {
+        if self.buf.position() + b.len() as u64 > self.room {
+            return Err(std::io::Error::from_raw_os_error(28));
+        }
+        self.buf.write(b)
+    }
+    fn flush(&mut self) -> std::io::Result<()> {
+        Ok(())
+    }
+}
+impl std::io::Seek for RoomFor {
+    fn seek(&mut self, p: std::io::SeekFrom) -> std::io::Result<u64> {
+        self.buf.seek(p)
+    }
+}
+
+fn merge_and_observe(cj: impl dukebox::storage::Jar, sj: impl dukebox::storage::Jar, with_mem: bool, failed_write_first: u32) -> Outcome {
     let merged = match no_panic(move || dukebox::merge::merge(cj, sj)) {
         Err(pm) => return Outcome::Panic(pm, "merge"),
         Ok(Err(e)) => return Outcome::Err(format!("{e:#}"), "merge"),
@@ -449,6 +476,15 @@ fn merge_and_observe(cj: impl dukebox::storage::Jar, sj: impl dukebox::storage::
         Ok(Err(e)) => return Outcome::Err(format!("{e:#}"), "write-class"),
         Ok(Ok(o)) => o,
     };
+    if with_mem && failed_write_first != 0 {
+        // the outcome of the failing write itself is C07's business (sink phase); here only what it leaves behind counts
+        let _g = crate::c07::quiet::on();
+        if failed_write_first % 2 == 1 && std::path::Path::new("/dev/full").exists() {
+            let _ = no_panic(|| dukebox::storage::Jar::put_to_file(&merged, std::path::Path::new("/dev/full")).map(|_| ()));
+        } else {
+            let _ = no_panic(|| merged.verif_write(RoomFor { buf: std::io::Cursor::new(vec![]), room: failed_write_first as u64 }).map(|_| ()));
+        }
+    }
     let mem = if with_mem {
         Some(match no_panic(move || merged.to_mem()) {
             Err(pm) => Err(format!("panic: {pm}")),
@@ -952,7 +988,13 @@ impl Engine for C13 {
             fresh
         });
 
-        let mut p = Plan { items, c_deflate: w.chance(60), s_deflate: w.chance(60), c_io: IoPlan::plain(), s_io: IoPlan::plain(), lazy: None };
+        let mut p = Plan { items, c_deflate: w.chance(60), s_deflate: w.chance(60), c_io: IoPlan::plain(), s_io: IoPlan::plain(), lazy: None, failed_write_first: 0 };
+        {
+            let mut fw = rng.split("failed-write-first");
+            if fw.chance(12) {
+                p.failed_write_first = 1 + fw.below(2000) as u32;
+            }
+        }
 
         // ---- schedule and faults: 20 % plain, 30 % legal behaviours only, 50 % faults
         let mode = s.below(10);
@@ -1020,7 +1062,7 @@ impl Engine for C13 {
         // ---------------- T0: plain media, compare with the reference union
         st.tier("T0");
         let reference: RefMerge = refmerge::reference(&as_in(&b.client), &as_in(&b.server));
-        let (r0, h0) = run_merge(&b.c_bytes, &plain, &b.s_bytes, &plain, true);
+        let (r0, h0) = run_merge(&b.c_bytes, &plain, &b.s_bytes, &plain, true, p.failed_write_first);
         h0.report(st);
         let mut t0_ids: Vec<(String, String)> = vec![];
         let obs0 = match r0 {
@@ -1102,7 +1144,7 @@ impl Engine for C13 {
             let legal = p.c_io.legal_only() && p.s_io.legal_only();
             let tier = if legal { "T1" } else { "T2" };
             st.tier(tier);
-            let (r1, h1) = run_merge(&b.c_bytes, &p.c_io, &b.s_bytes, &p.s_io, false);
+            let (r1, h1) = run_merge(&b.c_bytes, &p.c_io, &b.s_bytes, &p.s_io, false, 0);
             let (fired_c, fired_s, fuel) = h1.report(st);
             if fuel {
                 out.push(Violation::new(tier, "runaway", "merge", "medium fuel exhausted"));
@@ -1160,7 +1202,7 @@ impl Engine for C13 {
                                         let issues = refmerge::check(&r, &o, &mut seen);
                                         // input-level findings reproduce when the DELIVERED bytes are merged over plain media;
                                         // they are T0's business (other workload), not a property of the fault
-                                        let (rp, _hp) = run_merge(&dc, &plain, &ds, &plain, false);
+                                        let (rp, _hp) = run_merge(&dc, &plain, &ds, &plain, false, 0);
                                         let plain_ids: Vec<(String, String)> = match &rp {
                                             Outcome::Ok(o2, _) => {
                                                 if let Err((path, d)) = same_observation(o2, &o) {
@@ -1191,7 +1233,7 @@ impl Engine for C13 {
             }
             if !legal {
                 // heal: the healthy pair merges to the T0 answer again
-                let (r2, _h2) = run_merge(&b.c_bytes, &plain, &b.s_bytes, &plain, false);
+                let (r2, _h2) = run_merge(&b.c_bytes, &plain, &b.s_bytes, &plain, false, 0);
                 match r2 {
                     Outcome::Ok(o, _) => {
                         if let Err((path, d)) = same_observation(&obs0, &o) {
@@ -1208,7 +1250,7 @@ impl Engine for C13 {
             use crate::simjar::{LazyJar, SharedLazy};
             let cj = Arc::new(LazyJar::new(b.client.clone(), lc));
             let sj = Arc::new(LazyJar::new(b.server.clone(), ls));
-            let r = merge_and_observe(SharedLazy(cj.clone()), SharedLazy(sj.clone()), false);
+            let r = merge_and_observe(SharedLazy(cj.clone()), SharedLazy(sj.clone()), false, 0);
             cj.report(st);
             sj.report(st);
             let failed = cj.failed() + sj.failed() > 0;
@@ -1251,6 +1293,9 @@ impl Engine for C13 {
 
     fn shrink(&self, p: &Plan) -> Vec<Plan> {
         let mut c: Vec<Plan> = vec![];
+        if p.failed_write_first != 0 {
+            c.push(Plan { failed_write_first: 0, ..p.clone() });
+        }
         if let Some((lc, ls)) = &p.lazy {
             c.push(Plan { lazy: None, ..p.clone() });
             for l in lc.smaller() {
